@@ -276,8 +276,15 @@ def monitor_rr(calls, outs):
 # ------------------------------------------------------------------ the check
 def run(ck):
     vlib.import_repo()
+    # translator tie: regenerate Model/MurmurGen.v from the CURRENT source, then re-check the theorems about it
+    import os
+    import py2coq
+    tr_ok, tr_msg = py2coq.generate_murmur(vlib.REPO, os.path.join(vlib.COQ, "Model", "MurmurGen.v"))
+    ck.cov["translator"] = {"source": os.path.join(vlib.REPO, "afkak/partitioner.py") + ":pure_murmur2", "translated": tr_ok, "message": tr_msg}
     ck.build([MODEL])
     ck.props()
+    ck.make_soft("Props/C18gen.vo")
+    ck.props("C18gen", soft=True)
     rnd = random.Random(ck.seed)
     scale = 1 if ck.tier == "quick" else 20
     describe = lambda c: {"op": c[0], "line": c[:40]}
@@ -385,15 +392,17 @@ def run(ck):
         ck.violation({"kind": "producer does not drive its partitioner as the model says (one partitioner per topic, current list)",
                       "history": meta[i][0], "topic": meta[i][1], "impl": impl[i], "model": mo[i], "replay_op": "producer"})
 
+    ck.resolve_soft()   # broken translator-tied theorem and no concrete failing input found above => still a violation
     if ck.tier == "thorough":
-        ck.coqchk(["AV.Props.C18"])
+        ck.coqchk(["AV.Props.C18"] + ([] if getattr(ck, "soft_broken", None) else ["AV.Props.C18gen"]))
     ck.cov["rule"] = ("seeded generator (random.Random(VERIF_SEED)): byte keys of every length mod 4 incl. bytes>=0x80 and up to 600 bytes, "
                       "text keys incl. non-BMP and lone surrogates, partition lists (contiguous, sparse, unsorted, duplicated, empty), "
                       "round-robin histories with list changes and random/fixed start (randint values read back). "
                       "A case is non-trivial if the key is non-empty / a partition was returned / the history has >=3 selections; "
                       "distinct = distinct canonical case lines.")
     ck.assumptions += [
-        "hand-written Gallina models Model/Murmur.v, Model/Partitioner.v stand for afkak/partitioner.py:29-99,131-219 (tie checked by this run's correspondence only)",
+        "pure_murmur2: Model/MurmurGen.v is regenerated from the source by the translator harness/py2coq.py (trusted: the translator's reading of Python ints as Z, //,% as Z.div/Z.modulo on non-negative operands, indexing as nth) and proved equal to the hand model on every run",
+        "hand-written Gallina models Model/Murmur.v, Model/Partitioner.v stand for afkak/partitioner.py:29-99,131-219 (HashedPartitioner/RoundRobinPartitioner tie checked by this run's correspondence only)",
         "murmur2_java is a transcription of org.apache.kafka.common.utils.Utils.murmur2 with two's-complement int32 semantics (validated against Kafka's UtilsTest vectors in Props/C18.v)",
         "CPython str.encode('UTF-8') modelled by Model.Partitioner.utf8 (checked by correspondence)",
         "extraction: Require Extraction ExtrOcamlBasic only (bool, option, unit, list, prod, sumbool, sumor to OCaml natives); Z/positive/nat stay Coq datatypes; OCaml 4.13.1 ocamlopt; sample re-evaluated in Coq by vm_compute",
